@@ -110,7 +110,7 @@ Definition entries (g : graph) (cs : list acell) (n j u : nat) : list nat :=
 
 Inductive ev : Type :=
 | EvPanic
-| EvWorse (value : list nat)                 (* returned true; singletonPrefixLength NOT updated *)
+| EvWorse (value : list nat) (spl : nat)      (* returned true; singletonPrefixLength = j + 1 (commit a4bdb37) *)
 | EvOk (value : list nat) (spl : nat).
 
 (* expandValue: k = number of iterations left, j = loop variable.  m = cap(currentBest) =
@@ -137,7 +137,7 @@ Fixpoint expand_loop (k : nat) (g : graph) (cs : list acell) (n m : nat) (cb fl 
                       | Lt =>
                           match cmp_list value' (firstn (length value') fl) with
                           | Eq => expand_loop k' g cs n m cb fl value' (S j)
-                          | _ => EvWorse value'
+                          | _ => EvWorse value' (S j)
                           end
                       | _ => expand_loop k' g cs n m cb fl value' (S j)
                       end
@@ -178,7 +178,7 @@ Definition split_bin (g : graph) (n m : nat) (cb fl : list nat) (ps : pstate) (i
           if length b =? p_spl ps then
             match expand_value g cs' n m cb fl (p_value ps) (p_spl ps) with
             | EvPanic => Panic
-            | EvWorse v => Ok (true, mkP cs' age' v (p_spl ps))
+            | EvWorse v s => Ok (true, mkP cs' age' v s)
             | EvOk v s => Ok (false, mkP cs' age' v s)
             end
           else Ok (false, mkP cs' age' (p_value ps) (p_spl ps))
@@ -260,7 +260,7 @@ Fixpoint round_loop (g : graph) (n m : nat) (cb fl : list nat) (w : list nat) (a
         if length pre' =? spl then
           match expand_value g (rev pre' ++ post') n m cb fl value spl with
           | EvPanic => RrPanic
-          | EvWorse v => RrWorse (mkP (rev pre' ++ post') age v spl)
+          | EvWorse v s => RrWorse (mkP (rev pre' ++ post') age v s)
           | EvOk v s => round_loop g n m cb fl w age pre' post' v s
           end
         else round_loop g n m cb fl w age pre' post' value spl
@@ -595,8 +595,8 @@ Definition canon_search (fuel : nat) (g : graph) (cls : option (list (list nat))
       (* op.expandValue(neighbours, currentBest, firstLeaf): currentBest is empty *)
       match expand_value g cs n m [] (repeat 0 m) [] 0 with
       | EvPanic => Panic
-      | EvWorse v =>                                        (* the result is ignored by the caller *)
-          do w <- refine_s g n m [] (repeat 0 m) (mkP cs 0%Z v 0);
+      | EvWorse v s =>                                      (* the result is ignored by the caller *)
+          do w <- refine_s g n m [] (repeat 0 m) (mkP cs 0%Z v s);
           main_loop g n m fuel (init_state n m (snd w)) (fst w)
       | EvOk v s =>
           do w <- refine_s g n m [] (repeat 0 m) (mkP cs 0%Z v s);
